@@ -53,6 +53,10 @@ type c09pCase struct {
 	Shape  string   `json:"shape"`
 	Rcpts  []string `json:"client_rcpts"`
 	FailOn string   `json:"fail_on"` // final address whose per-recipient status fails; "body" = atomic body failure; "" none
+	// Earlier: the message comes from a queue fed by another pipeline that had rewritten every
+	// recipient already (MsgMetadata.OriginalRcpts arrives filled: client address -> address
+	// the original sender used)
+	Earlier bool `json:"rewritten_before_this_pipeline,omitempty"`
 }
 
 type c09pStatus struct {
@@ -125,7 +129,14 @@ func c09pRun(c c09pCase) (string, string) {
 		return "HARNESS:load", err.Error()
 	}
 	ctx := context.Background()
-	d, err := p.Start(ctx, &module.MsgMetadata{ID: "c09p"}, "sender@origin.example")
+	meta := &module.MsgMetadata{ID: "c09p"}
+	if c.Earlier {
+		meta.OriginalRcpts = map[string]string{}
+		for _, r := range c.Rcpts {
+			meta.OriginalRcpts[r] = "first-" + r
+		}
+	}
+	d, err := p.Start(ctx, meta, "sender@origin.example")
 	if err != nil {
 		return "HARNESS:start", err.Error()
 	}
@@ -222,7 +233,7 @@ func keys(m map[string]bool) []string {
 func TestVerifC09Pipeline(t *testing.T) {
 	r := vx.Start("C09", "pipeline")
 	defer r.Finish()
-	r.Rule("5 pipeline shapes (global 1->1 rewrite + per-recipient target, destination 1->2 rewrite, atomic target, atomic + per-recipient targets, nested reroute with rewriting at both levels) x client recipient lists of 1-3 over {plain, alias, second alias of the same mailbox, list address, two-step alias} x failure on each final address / atomic body failure / none, through the real msgpipeline BodyNonAtomic; oracle: every status key is an address the client supplied, a failing final address is reported under the client's address, nothing else fails. Non-trivial: distinct cases with a failure")
+	r.Rule("5 pipeline shapes (global 1->1 rewrite + per-recipient target, destination 1->2 rewrite, atomic target, atomic + per-recipient targets, nested reroute with rewriting at both levels) x client recipient lists of 1-3 over {plain, alias, second alias of the same mailbox, list address, two-step alias} x failure on each final address / atomic body failure / none x message fresh or already rewritten by a pipeline in front of a queue (OriginalRcpts arrives filled), through the real msgpipeline BodyNonAtomic; oracle: every status key is an address the client supplied, a failing final address is reported under the client's address, nothing else fails. Non-trivial: distinct cases with a failure")
 	if rp := r.Replay(); rp != nil {
 		var c c09pCase
 		if json.Unmarshal(rp, &c) != nil {
@@ -263,23 +274,25 @@ func TestVerifC09Pipeline(t *testing.T) {
 				if !r.Mine(idx) {
 					continue
 				}
-				c := c09pCase{Shape: sh, Rcpts: l, FailOn: f}
-				fp, detail := c09pRun(c)
-				r.Eval()
-				if f != "" {
-					r.Nontrivial(vx.JSON(c))
-				}
-				if strings.HasPrefix(fp, "HARNESS:") {
-					r.HarnessError(fp + " " + detail)
-					return
-				}
-				if fp != "" {
-					r.Violation(fp, detail+"\ncase: "+vx.JSON(c), c)
-				} else {
-					r.Outcome(c.Shape + ": " + c09pOutcome)
-				}
-				if idx%97 == 0 {
-					r.Sample(c)
+				for _, earlier := range []bool{false, true} {
+					c := c09pCase{Shape: sh, Rcpts: l, FailOn: f, Earlier: earlier}
+					fp, detail := c09pRun(c)
+					r.Eval()
+					if f != "" {
+						r.Nontrivial(vx.JSON(c))
+					}
+					if strings.HasPrefix(fp, "HARNESS:") {
+						r.HarnessError(fp + " " + detail)
+						return
+					}
+					if fp != "" {
+						r.Violation(fp, detail+"\ncase: "+vx.JSON(c), c)
+					} else {
+						r.Outcome(c.Shape + ": " + c09pOutcome)
+					}
+					if idx%97 == 0 {
+						r.Sample(c)
+					}
 				}
 			}
 		}
